@@ -43,7 +43,7 @@ COMPONENTS = {
 }
 ASSUMPTIONS = ["wrapped (stacked) remote locations are not generated: the harness has no container runtime; C21 covers the registry side of mount points",
                "a destination that already exists as a directory receives the source inside it (basename appended), as transfer_data registers it"]
-TIERS = {"quick": {"runs": 500, "budget_s": 120}, "thorough": {"runs": 40000, "budget_s": 480, "chunk": 8, "params": {"big": True}}}
+TIERS = {"quick": {"runs": 500, "budget_s": 120, "chunk": 4}, "thorough": {"runs": 40000, "budget_s": 480, "chunk": 8, "params": {"big": True}}}
 STALL_S = 600   # real child processes: a chunk may need minutes on a loaded machine
 SIM_KW = {"max_steps": 3_000_000, "wall_cap": 60.0, "max_vtime": 1e7}
 
